@@ -1,7 +1,7 @@
 import FsutilModel.Model.DiffB
 /-! Wire codec of `types.Stat` / `types.Packet` (generated vtproto code, transcribed) and the
-length-prefixed framing of util/protostream.go. Every buffer read goes through `get?`; an
-out-of-range read is the distinguished outcome `panic` (never totalised away). -/
+length-prefixed framing of util/protostream.go. Every buffer read goes through `get?` and every slice expression through `sliceC`; an
+out-of-range read or slice is the distinguished outcome `panic` (never totalised away). -/
 namespace Fsm.W
 
 abbrev Bytes := Array Nat
@@ -86,6 +86,10 @@ deriving Repr, DecidableEq
 
 def slice (d : Bytes) (a b : Nat) : List Nat := (d.extract a b).toList
 
+/-- Go's `dAtA[a:b]`: a slice expression outside `0 ≤ a ≤ b ≤ len` panics -/
+def sliceC (d : Bytes) (a b : Nat) : Except Err (List Nat) :=
+  if a ≤ b ∧ b ≤ d.size then .ok (slice d a b) else .error .panic
+
 def mapSet (m : List (List Nat × List Nat)) (k v : List Nat) : List (List Nat × List Nat) :=
   if m.any (·.1 = k) then m.map (fun kv => if kv.1 = k then (k, v) else kv) else m ++ [(k, v)]
 
@@ -108,52 +112,68 @@ def xattrEntryLoop (d : Bytes) (l post : Nat) : Nat → Nat → List Nat → Lis
     let fieldNum := toInt32 (wire / 8)
     if fieldNum = 1 then
       let (a, b) ← readLen d l i1
-      xattrEntryLoop d l post fuel b (slice d a b) v
+      let ks ← sliceC d a b
+      xattrEntryLoop d l post fuel b ks v
     else if fieldNum = 2 then
       let (a, b) ← readLen d l i1
-      xattrEntryLoop d l post fuel b k (slice d a b)
+      let vs ← sliceC d a b
+      xattrEntryLoop d l post fuel b k vs
     else
       let sk ← skip d l i
       if i + sk > post then throw .eof
       xattrEntryLoop d l post fuel (i + sk) k v
 
+/-- a varint field of the generated decoder: wire type check, value, continuation index -/
+def varintFieldG {M : Type} (d : Bytes) (l i1 wt : Nat) (k : Nat → M) : Except Err (Nat × M) := do
+  if wt ≠ 0 then throw .wrongWireType
+  let (v, i2) ← readVar d l i1
+  return (i2, k v)
+
+/-- a length-delimited field: wire type check, length, bounds checks, payload copied out -/
+def bytesFieldG {M : Type} (d : Bytes) (l i1 wt : Nat) (k : List Nat → M) : Except Err (Nat × M) := do
+  if wt ≠ 2 then throw .wrongWireType
+  let (a, b) ← readLen d l i1
+  let s ← sliceC d a b
+  return (b, k s)
+
+/-- the `default:` arm: skip the field and keep its bytes as unknown -/
+def unknownFieldG {M : Type} (d : Bytes) (l pre : Nat) (k : List Nat → M) : Except Err (Nat × M) := do
+  let sk ← skip d l pre
+  if pre + sk > l then throw .eof
+  let u ← sliceC d pre (pre + sk)
+  pure (pre + sk, k u)
+
+/-- field 10 of Stat: one map entry -/
+def xattrField (d : Bytes) (l i1 wt : Nat) (m : PStat) : Except Err (Nat × PStat) := do
+  if wt ≠ 2 then throw .wrongWireType
+  let (a, post) ← readLen d l i1
+  let (k, v) ← xattrEntryLoop d l post (post - a + 2) a [] []
+  pure (post, { m with xattrs := mapSet m.xattrs k v })
+
+/-- one iteration of `(*Stat).UnmarshalVT` after the tag has been read: dispatch on the field number -/
+def statField (d : Bytes) (l pre i1 wire : Nat) (m : PStat) : Except Err (Nat × PStat) :=
+  let fieldNum := toInt32 (wire / 8)
+  let wt := wire % 8
+  if wt = 4 then throw .endGroup
+  else if fieldNum ≤ 0 then throw .illegalTag
+  else if fieldNum = 1 then bytesFieldG d l i1 wt fun s => { m with path := s }
+  else if fieldNum = 2 then varintFieldG d l i1 wt fun v => { m with mode := v % two32 }
+  else if fieldNum = 3 then varintFieldG d l i1 wt fun v => { m with uid := v % two32 }
+  else if fieldNum = 4 then varintFieldG d l i1 wt fun v => { m with gid := v % two32 }
+  else if fieldNum = 5 then varintFieldG d l i1 wt fun v => { m with size := toInt64 v }
+  else if fieldNum = 6 then varintFieldG d l i1 wt fun v => { m with mtime := toInt64 v }
+  else if fieldNum = 7 then bytesFieldG d l i1 wt fun s => { m with linkname := s }
+  else if fieldNum = 8 then varintFieldG d l i1 wt fun v => { m with devmajor := toInt64 v }
+  else if fieldNum = 9 then varintFieldG d l i1 wt fun v => { m with devminor := toInt64 v }
+  else if fieldNum = 10 then xattrField d l i1 wt m
+  else unknownFieldG d l pre fun u => { m with unknown := m.unknown ++ u }
+
 def unmarshalStatLoop (d : Bytes) (l : Nat) : Nat → Nat → PStat → Except Err PStat
   | 0, _, m => .ok m
   | fuel+1, i, m =>
     if i ≥ l then .ok m else do
-    let pre := i
     let (wire, i1) ← readVar d l i
-    let fieldNum := toInt32 (wire / 8)
-    let wt := wire % 8
-    if wt = 4 then throw .endGroup
-    if fieldNum ≤ 0 then throw .illegalTag
-    let varintField (k : Nat → PStat) : Except Err (Nat × PStat) := do
-      if wt ≠ 0 then throw .wrongWireType
-      let (v, i2) ← readVar d l i1
-      return (i2, k v)
-    let bytesField (k : List Nat → PStat) : Except Err (Nat × PStat) := do
-      if wt ≠ 2 then throw .wrongWireType
-      let (a, b) ← readLen d l i1
-      return (b, k (slice d a b))
-    let (i', m') ←
-      if fieldNum = 1 then bytesField fun s => { m with path := s }
-      else if fieldNum = 2 then varintField fun v => { m with mode := v % two32 }
-      else if fieldNum = 3 then varintField fun v => { m with uid := v % two32 }
-      else if fieldNum = 4 then varintField fun v => { m with gid := v % two32 }
-      else if fieldNum = 5 then varintField fun v => { m with size := toInt64 v }
-      else if fieldNum = 6 then varintField fun v => { m with mtime := toInt64 v }
-      else if fieldNum = 7 then bytesField fun s => { m with linkname := s }
-      else if fieldNum = 8 then varintField fun v => { m with devmajor := toInt64 v }
-      else if fieldNum = 9 then varintField fun v => { m with devminor := toInt64 v }
-      else if fieldNum = 10 then do
-        if wt ≠ 2 then throw .wrongWireType
-        let (a, post) ← readLen d l i1
-        let (k, v) ← xattrEntryLoop d l post (post - a + 2) a [] []
-        pure (post, { m with xattrs := mapSet m.xattrs k v })
-      else do
-        let sk ← skip d l pre
-        if pre + sk > l then throw .eof
-        pure (pre + sk, { m with unknown := m.unknown ++ slice d pre (pre + sk) })
+    let (i', m') ← statField d l i i1 wire m
     unmarshalStatLoop d l fuel i' m'
 
 def unmarshalStat (bs : List Nat) : Except Err PStat :=
@@ -196,39 +216,33 @@ def marshalPacket (p : PPacket) : List Nat :=
   (match p.stat with | some s => let b := marshalStat s; 18 :: encVar b.length ++ b | none => []) ++
   encVarField 24 p.id ++ encBytesField 34 (p.data.getD []) ++ p.unknown
 
+/-- field 2 of Packet: the nested Stat message, decoded from a copy of its bytes into the existing (or a fresh) Stat -/
+def nestedStatField (d : Bytes) (l i1 wt : Nat) (m : PPacket) : Except Err (Nat × PPacket) := do
+  if wt ≠ 2 then throw .wrongWireType
+  let (a, b) ← readLen d l i1
+  let subl ← sliceC d a b
+  let sub := subl.toArray
+  let st ← unmarshalStatLoop sub sub.size (sub.size + 1) 0 (m.stat.getD {})
+  pure (b, { m with stat := some st })
+
+/-- one iteration of `(*Packet).UnmarshalVT` after the tag has been read -/
+def packetField (d : Bytes) (l pre i1 wire : Nat) (m : PPacket) : Except Err (Nat × PPacket) :=
+  let fieldNum := toInt32 (wire / 8)
+  let wt := wire % 8
+  if wt = 4 then throw .endGroup
+  else if fieldNum ≤ 0 then throw .illegalTag
+  else if fieldNum = 1 then varintFieldG d l i1 wt fun v => { m with type := toInt32 v }
+  else if fieldNum = 2 then nestedStatField d l i1 wt m
+  else if fieldNum = 3 then varintFieldG d l i1 wt fun v => { m with id := v % two32 }
+  else if fieldNum = 4 then bytesFieldG d l i1 wt fun dt => { m with data := some dt }
+  else unknownFieldG d l pre fun u => { m with unknown := m.unknown ++ u }
+
 def unmarshalPacketLoop (d : Bytes) (l : Nat) : Nat → Nat → PPacket → Except Err PPacket
   | 0, _, m => .ok m
   | fuel+1, i, m =>
     if i ≥ l then .ok m else do
-    let pre := i
     let (wire, i1) ← readVar d l i
-    let fieldNum := toInt32 (wire / 8)
-    let wt := wire % 8
-    if wt = 4 then throw .endGroup
-    if fieldNum ≤ 0 then throw .illegalTag
-    let (i', m') ←
-      if fieldNum = 1 then do
-        if wt ≠ 0 then throw .wrongWireType
-        let (v, i2) ← readVar d l i1
-        pure (i2, { m with type := toInt32 v })
-      else if fieldNum = 2 then do
-        if wt ≠ 2 then throw .wrongWireType
-        let (a, b) ← readLen d l i1
-        let sub := d.extract a b
-        let st ← unmarshalStatLoop sub sub.size (sub.size + 1) 0 (m.stat.getD {})
-        pure (b, { m with stat := some st })
-      else if fieldNum = 3 then do
-        if wt ≠ 0 then throw .wrongWireType
-        let (v, i2) ← readVar d l i1
-        pure (i2, { m with id := v % two32 })
-      else if fieldNum = 4 then do
-        if wt ≠ 2 then throw .wrongWireType
-        let (a, b) ← readLen d l i1
-        pure (b, { m with data := some (slice d a b) })
-      else do
-        let sk ← skip d l pre
-        if pre + sk > l then throw .eof
-        pure (pre + sk, { m with unknown := m.unknown ++ slice d pre (pre + sk) })
+    let (i', m') ← packetField d l i i1 wire m
     unmarshalPacketLoop d l fuel i' m'
 
 def unmarshalPacket (bs : List Nat) : Except Err PPacket :=
